@@ -105,7 +105,25 @@ C12_Bound ==
 C12 == C12_Bound
 
 -----------------------------------------------------------------------------
+(* C14 stopped() / running() tell the truth without anyone awaiting the actor *)
+C14_Truth == \A q \in hst.qry : q[1] = q[2]
+C14 == C14_Truth
+
+-----------------------------------------------------------------------------
+(* C15 every strong handle kind keeps the actor fully functional *)
+C15_CtxWorks == \A r \in hst.ctxr : r[2] => r[1]     \* some strong handle exists => ctx.stop()/restart() succeed
+C15_Upgrades == \A r \in hst.upr  : r[2] => r[1]     \* some strong handle exists => every weak handle upgrades
+C15_BothHalves == \A a \in Used : LiveH(a, StrongKinds) => (TxHeld(a) /\ FoHeld(a))
+C15 == C15_CtxWorks /\ C15_Upgrades /\ C15_BothHalves
+
+-----------------------------------------------------------------------------
 (* C17 OwningAddr hands back the final state exactly once *)
-C17_Once == \A a \in Used : Cardinality({i \in 1..Len(hst.ann[a]) : hst.ann[a][i][1] = "join" /\ hst.ann[a][i][3] = "ok" /\ hst.ann[a][i][4] = "some"}) <= 1
+JoinEntries(a) == {i \in 1..Len(hst.ann[a]) : hst.ann[a][i][1] = "join"}
+C17_Once == \A a \in Used : Cardinality({i \in JoinEntries(a) : hst.ann[a][i][4] = "some"}) <= 1
+C17_AfterTermination == \A a \in Used : \A i \in JoinEntries(a) : hst.ann[a][i][2] \in {"done", "failed"}
+C17_ValueIffGraceful == \A a \in Used : \A i \in JoinEntries(a) :
+                           (hst.ann[a][i][4] = "some") <=> (hst.ann[a][i][3] = "ok")
+C17_StrongHandle == \A a \in Used : LiveH(a, {"owning"}) => (TxHeld(a) /\ FoHeld(a))
+C17 == C17_Once /\ C17_AfterTermination /\ C17_ValueIffGraceful /\ C17_StrongHandle
 
 =============================================================================
